@@ -104,7 +104,7 @@ class FuncSpec:
                  returns_self=False, loops=None, lemmas=None, logical=None, inline=False, may_fail=False,
                  assume_only=False, entry_inv=True, exit_inv=True, notes='', src_cls=None, implements=None,
                  local_types=None, exc_inv=False, src_name=None, opaque=None, callee_variants=None, mirrors=None,
-                 counts=None, ghost_out=None, body_ensures=None, entry_lemmas=None, cuts=None, exit_cuts=None):
+                 counts=None, ghost_out=None, body_ensures=None, entry_lemmas=None, cuts=None, exit_cuts=None, clause_lemmas=None):
         self.key = key
         self.file = file
         self.params = dict(params or {})
@@ -133,6 +133,7 @@ class FuncSpec:
         self.local_types = dict(local_types or {})
         self.exc_inv = exc_inv
         self.src_name = src_name
+        self.clause_lemmas = dict(clause_lemmas or {})   # clause -> lambda(c) -> lemma instances used for that clause only
         self.exit_cuts = list(exit_cuts or [])   # [(name, lambda(c))]: proof steps at normal exit, each proved then assumed, in order
         self.cuts = dict(cuts or {})    # callee key prefix -> lambda(run, args NS): intermediate assertion proved, then assumed, just before that call
         self.entry_lemmas = entry_lemmas        # lambda(c) -> [BoolRef]: lemma instances assumed at entry
